@@ -46,6 +46,7 @@ def main():
     wt = sys.argv[1]
     no_tests = '--no-tests' in sys.argv
     names = [a for a in sys.argv[2:] if not a.startswith('--')]
+    rnd = next((a.split('=')[1] for a in sys.argv if a.startswith('--round=')), None)
     sdir = os.path.join(wt, 'seeds')
     pids = claimed()
     env = {'PYTHONPATH': wt}
@@ -91,7 +92,8 @@ def main():
             meta = {'meta_error': str(ex)}
         meta['confirmation'] = res
         if ok:
-            dst = os.path.join(VERIF, 'seeded', name)
+            pid_, _, k_ = name.partition('_')
+            dst = os.path.join(VERIF, 'seeded', f'{pid_}_r{rnd}_{k_}' if rnd else name)
             os.makedirs(dst, exist_ok=True)
             shutil.copy(patch, dst)
             shutil.copy(demo, dst)
